@@ -821,6 +821,18 @@ def _pairs(a, b):
                     yield p
 
 
+def _carried_class(ctx, where, k, E, err):
+    """the PathAccessError that carries E stands for E towards the caller: `except ValueError` around glom(t, T[::0]),
+    skip_exc=OverflowError, Coalesce(..., skip_exc=ValueError) must keep working (C04: "an instance of the class of the
+    exception originally raised").  Every PathAccessError is an AttributeError, a KeyError and an IndexError by its
+    documented bases; the label counts the cases where E's class lies outside those"""
+    if not isinstance(E, (AttributeError, KeyError, IndexError)):
+        ctx.label('carried-class-beyond-lookup')
+    if not isinstance(err, type(E)):
+        raise Mismatch('carried-class-lost', '%s: step %d fails with %r; the %s that carries it is not an instance of %s: %r'
+                       % (where, k, E, type(err).__name__, type(E).__name__, [c.__name__ for c in type(err).__mro__]))
+
+
 def check(recipe, ctx):
     steps = recipe['steps']
     if recipe.get('twin_first'):
@@ -940,6 +952,7 @@ def check(recipe, ctx):
             if err.part_idx != k or type(err.exc) is not type(E) or err.exc.args != E.args:
                 raise Mismatch('wrong-part-idx', '%s: nested argument %r fails at its step %d with %r; error says part %r, %r'
                                % (where, inner, k, E, err.part_idx, err.exc))
+            _carried_class(ctx, where, k, E, err)
         elif kind in PAE_KINDS and isinstance(E, PAE_KINDS[kind]):
             if not isinstance(err, PathAccessError):
                 raise Mismatch('not-pae', '%s: step %d (%s) fails with %r; glom raised %s: %r'
@@ -951,6 +964,7 @@ def check(recipe, ctx):
                 raise Mismatch('wrong-carried-exception', '%s: expected %r, carried %r' % (where, E, err.exc))
             if not isinstance(err, GlomError):
                 raise Mismatch('not-glomerror', where)
+            _carried_class(ctx, where, k, E, err)
         else:
             if not isinstance(err, type(E)):
                 raise Mismatch('class-lost', '%s: step %d raises %r, glom raised %s' % (where, k, E, type(err).__mro__))
@@ -1004,6 +1018,8 @@ SUBS = [
                 'unusual-decimal-signal': 0.015, 'kwarg-self': 0.015,
                 # a slice step on a mapping (seed C01-I); subclass-instance literals in argument position (seed C02-J)
                 'fail-slice-on-mapping': 0.009,
+                # the carried error's class lies outside PathAccessError's own bases: the error must be one of it, too (F111)
+                'carried-class-beyond-lookup': 0.14,
                 'subclass-literal': 0.075, 'subclass-literal-stateful': 0.06, 'sublit-identity-checked': 0.065,
                 'sublit-state-read': 0.045, 'sublit-positional': 0.03, 'sublit-keyword': 0.011, 'sublit-nested': 0.012,
                 'sublit-index': 0.008, 'sublit-operand': 0.007, 'sublit-class-defaultdict': 0.03, 'sublit-holds-T': 0.02}),
